@@ -44,8 +44,9 @@ pub fn env() -> &'static Env {
       .unwrap_or(0);
     let dp = crate::DomainParticipant::new(domain).expect("participant");
     let qos = crate::QosPolicyBuilder::new().build();
-    let sub = dp.create_subscriber(&qos).expect("subscriber");
-    let publ = dp.create_publisher(&qos).expect("publisher");
+    let _ = qos;
+    let sub = crate::dds::pubsub::verif_hook::detached_subscriber(&dp);
+    let publ = crate::dds::pubsub::verif_hook::detached_publisher(&dp);
     Env { dp, sub, publ }
   })
 }
